@@ -598,12 +598,16 @@ impl TypedStmt {
 
                 let mut i = 0;
                 while i < array.len() {
+                    // each iteration has its own scope: bindings of one iteration must not be
+                    // visible to (or shadow variables for) the next one
+                    env.push();
                     let binding = &array[i..i + elem_in_bits];
                     pattern.compile(binding, prg, env, circuit);
 
                     for stmt in body {
                         stmt.compile(prg, env, circuit);
                     }
+                    env.pop();
                     i += elem_in_bits;
                 }
                 env.pop();
